@@ -41,3 +41,6 @@ PROP = dict(
         "aborts BeginBlocker; the model returns None and the theorems speak about completed calls",
     ],
 )
+
+# translator agreement lemmas (tools/gokernel regenerates Gen/K*.v from /repo on every run)
+PROP["agree"] = ['Gen/AgreeInflation', 'Gen/AgreeEpochs']
